@@ -20,13 +20,12 @@ import threading
 from ..runner import PY, REPO, ROOT, Infra
 
 THEOREMS = [
-    "f2q_value", "f2q_inf", "f2q_nan", "q2f_f2q", "q2f_f2q_inf",
+    "f2q_value", "f2q_inf", "q2f_f2q", "q2f_f2q_inf",
     "bin_value", "bin_roundtrip_partial", "bin_roundtrip_negzero_witness", "bin_roundtrip_inf", "bin_roundtrip_nan",
     "mpf_value", "mpf_roundtrip_partial", "mpf_roundtrip_negzero_witness", "mpf_roundtrip_inf", "mpf_roundtrip_nan",
     "mpf2float_float2mpf_tuple", "float2mpf_lowprec_witness",
-    "expansion2mpf_value", "expansion_value", "expansion_roundtrip", "expansion_inf", "expansion_nan_witness",
-    "multiword_value", "multiword_roundtrip", "multiword_nonfinite_witness", "multiword_maxlength1_witness",
-    "rne_faithful",
+    "expansion2mpf_value", "expansion_value", "expansion_inf", "expansion_nan_witness", "rspec_satisfiable",
+    "multiword_value_partial", "multiword_zero_window_witness", "multiword_nonfinite_witness", "multiword_maxlength1_witness",
 ]
 SEARCHED = [
     "the model's hypotheses about the rounding step mpf2float inside mpf2expansion (RSpec: grid, contraction, exact on representables) — checked on the real mpf2float by search; its proof belongs to C15",
